@@ -1120,6 +1120,9 @@ func (c *concCtx) scenarioInjectedPending(consumer, kind string) {
 	c.r.emit("scenario", "scenario "+strings.ReplaceAll(name, " ", "_"), "ok")
 }
 
+// attribute: when set, findings of the termination scenarios are reported for this property instead
+var attribute string
+
 func runConc(r *rec, g *rng, tier, what, out string, extra map[string]interface{}) {
 	mon, err := os.Create(filepath.Join(out, "monitor.jsonl"))
 	check(err)
@@ -1127,6 +1130,11 @@ func runConc(r *rec, g *rng, tier, what, out string, extra map[string]interface{
 	seen := map[string]bool{}
 	c := &concCtx{r: r}
 	c.report = func(prop, sig, what string, detail map[string]interface{}) {
+		if what0 := what; what0 != "" && attribute != "" && (prop == "C05" || prop == "C06" || prop == "C13") {
+			// the overflow scenarios run on behalf of C10 ("… keeps delivering and keeps accepting Add/Remove")
+			sig = attribute + ":after-overflow:" + strings.TrimPrefix(strings.TrimPrefix(strings.TrimPrefix(sig, "C05:"), "C06:"), "C13:")
+			prop = attribute
+		}
 		if seen[sig] {
 			return
 		}
@@ -1136,6 +1144,17 @@ func runConc(r *rec, g *rng, tier, what, out string, extra map[string]interface{
 		mon.Write(append(b, '\n'))
 	}
 	thorough := tier == "thorough"
+	if what == "C10" { // overflow is survivable: every control call returns and Close works with the overflow error pending
+		attribute = "C10"
+		for _, cs := range []string{"neither", "onlyEvents"} {
+			c.scenarioClose(0, cs, "overflow")
+		}
+		for _, cs := range []string{"neither", "onlyEvents", "onlyErrors"} {
+			c.scenarioInjectedPending(cs, "overflow")
+		}
+		attribute = ""
+		return
+	}
 	want := func(ids ...string) bool {
 		for _, id := range ids {
 			if what == "" || what == id {
